@@ -64,6 +64,9 @@ def cases(tier, seed):
     for ns, nm in DES_ARK:
         out.append(dict(gen='atk', cipher='des', ns=ns, name=nm, attack='CPA', sub=core.subseed('C17', seed, k), must=True))
         k += 1
+    # the identity model (the value of the state word itself leaks): intermediate values up to 255, not only 0..8
+    for j, (ns, nm) in enumerate([x for x in AES_T if 'AddRoundKey' not in x[1]][:3]):
+        out.append(dict(gen='atk', cipher='aes', ns=ns, name=nm, attack='CPA', model='value', sub=core.subseed('C17v', seed, j), must=True))
     for kind in ('tdpa', 'tstatic'):
         for cipher in ('aes', 'des'):
             out.append(dict(gen='tmpl', kind=kind, cipher=cipher, sub=core.subseed('C17t', seed, k), must=True))
@@ -210,6 +213,10 @@ def run_attack(case):
         bit = int(rng.integers(0, 6))
     mono = ((st >> bit) & 1).astype(float)
     leak = mono * 4 if att == 'DPA' else hw
+    value_model = case.get('model') == 'value' or (att == 'CPA' and cipher == 'aes' and 'AddRoundKey' not in case['name'] and rng.random() < 0.25)
+    if value_model:
+        leak = st.astype(float) / 16.0
+        t.count('attacks_with_value_model')
     constant = bool(rng.random() < 0.3)
     samples, pos = _simulate(rng, leak, constant=constant)
     if constant:
@@ -233,7 +240,7 @@ def run_attack(case):
         t.count('attacks_with_convergence_step')
     maxhw = 8 if cipher == 'aes' else (6 if ark else 4)
     if att == 'CPA':
-        a = scared.CPAAttack(model=scared.HammingWeight(), **kw)
+        a = scared.CPAAttack(model=scared.Value() if value_model else scared.HammingWeight(), **kw)
     elif att == 'DPA':
         a = scared.DPAAttack(model=scared.Monobit(bit), **kw)
     elif att == 'MIA':
